@@ -31,6 +31,17 @@ def cases(tier, seed):
     return out
 
 
+def mutate_output(y):
+    """what a caller may do with a tensor the model returned: in-place arithmetic, overwriting it.  None of it may reach the model."""
+    ops = [lambda t: t.mul_(0.5), lambda t: t.div_(4.0), lambda t: t.__imul__(3.0), lambda t: t.neg_(), lambda t: t.relu_(), lambda t: t.add_(1.0),
+           lambda t: t.clamp_(-0.25, 0.25), lambda t: t.copy_(t * 2.0), lambda t: t.zero_()]
+    for f in ops:
+        try:
+            f(y)
+        except Exception:  # noqa  (a refusal is not a side effect)
+            pass
+
+
 def py_state(model):
     from optimum.quanto.library import ops as libops
     from optimum.quanto.nn import QModuleMixin, qmodule
@@ -209,6 +220,14 @@ def run_case(case, res):
             y2b = guarded("forward-unfrozen-after-other-dtype", fwd)
             det1 = det1 and all(a is b for a, b in zip(y1.reshape(-1), y2b.reshape(-1)))
             guarded("state_dict", lambda: model.state_dict())
+
+            def use_output():
+                with torch.no_grad():
+                    mutate_output(model(x))
+
+            guarded("caller-mutates-returned-output", use_output)
+            y2c = guarded("forward-after-output-mutation", fwd)
+            det1 = det1 and all(a is b for a, b in zip(y1.reshape(-1), y2c.reshape(-1)))
             if a_t is not None:
                 m.unprotect_all()
                 with torch.no_grad(), Calibration(streamline=False):
@@ -419,6 +438,8 @@ def replay(rec):
                         model(x.to(odt))
                 except Exception:
                     pass
+            with torch.no_grad():
+                mutate_output(model(x))
             y2 = fwd()
             model.state_dict()
             s1 = snap()
